@@ -481,3 +481,93 @@ Definition rsrc_outcome (a : rpayload) : list Z :=
       | Ok a' => [0; dig (c_rsrc a'); if list_eqb (c_rsrc a') (c_rsrc a) then 1 else 0]
       end ++ [if wf_rsrc enc dec a then 1 else 0]
   end.
+
+(* ---- Stage 3 (5): Slices (Psd/Slices.v) *)
+From PsdV Require Import Psd.Slices.
+Definition c_slice6 (x : slice6) : list Z :=
+  [sl_id x; sl_group x; sl_origin x] ++ c_opt c_z (sl_assoc x) ++ c_list c_z (sl_name x) ++ [sl_type x] ++ c_list c_z (sl_bbox x) ++
+  c_list c_z (sl_url x) ++ c_list c_z (sl_target x) ++ c_list c_z (sl_message x) ++ c_list c_z (sl_alt x) ++ [sl_html x] ++
+  c_list c_z (sl_text x) ++ [sl_halign x; sl_valign x] ++ c_list c_z (sl_argb x) ++ c_opt c_dblock (sl_data x).
+Definition c_slices (x : slices) : list Z :=
+  match x with
+  | SlicesV6 bbox name items => [6] ++ c_list c_z bbox ++ c_list c_z name ++ c_list c_slice6 items
+  | SlicesDesc v b => [v] ++ c_dblock b
+  end.
+Definition slices_outcome (units : list Z) (t : terms) (x : slices) : list Z :=
+  match write_slices t x with
+  | Err e => [err_code e]
+  | Ok (b, n) =>
+      [0; n; dig b] ++
+      match read_slices units t b with
+      | Err e => [err_code e]
+      | Ok (x', _) => [0; dig (c_slices x'); if list_eqb (c_slices x') (c_slices x) then 1 else 0]
+      end ++ [if wf_slices units x then 1 else 0]
+  end.
+
+(* ---- Stage 3 (6): UserMask, SmartObjectLayerData, PlacedLayerData, TypeToolObjectSetting, PixelSourceData2,
+        MetadataSettings, Annotations (Psd/Misc.v, Psd/Meta.v) *)
+From PsdV Require Import Psd.Misc Psd.Meta.
+Inductive blk6 :=
+| BUserMask (cid : Z) (vals : list Z) (opacity flag : Z)
+| BSold (pad kind version : Z) (b : dblock)
+| BPlaced (pad : Z) (x : placed)
+| BTypeTool (pad : Z) (x : typetool)
+| BPixel (pad : Z) (l : list (list Z))
+| BMeta (l : list msetting)
+| BAnno (major minor : Z) (l : list annotation).
+Definition c_mdata (d : mdata) : list Z :=
+  match d with MInt v => [1; v] | MDesc b => 2 :: c_dblock b | MRaw x => 3 :: c_bytes x end.
+Definition c_anno (a : annotation) : list Z :=
+  c_list c_z (an_head a) ++ c_list c_z (an_icon a) ++ c_list c_z (an_popup a) ++ [fst (an_color a)] ++ c_list c_z (snd (an_color a)) ++
+  c_bytes (an_author a) ++ c_bytes (an_name a) ++ c_bytes (an_date a) ++ [an_marker a] ++ c_bytes (an_data a).
+Definition c_blk6 (a : blk6) : list Z :=
+  match a with
+  | BUserMask cid vals op fl => [1; cid] ++ c_list c_z vals ++ [op; fl]
+  | BSold _ kind version b => [2; kind; version] ++ c_dblock b
+  | BPlaced _ x => [3; pl_kind x; pl_version x] ++ c_bytes (pl_uuid x) ++ c_list c_z (pl_info x) ++ c_list c_z (pl_transform x) ++ c_dblock (pl_warp x)
+  | BTypeTool _ x => [4; ty_version x] ++ c_list c_z (ty_transform x) ++ [ty_text_version x] ++ c_dblock (ty_text x) ++
+                     [ty_warp_version x] ++ c_dblock (ty_warp x) ++ c_list c_z (ty_box x)
+  | BPixel _ l => [5] ++ c_list c_bytes l
+  | BMeta l => [6] ++ c_list (fun m => [ms_sig m; ms_key m; ms_copy m] ++ c_mdata (ms_data m)) l
+  | BAnno major minor l => [7; major; minor] ++ c_list c_anno l
+  end.
+Definition blk6_write (t : terms) (a : blk6) : W :=
+  match a with
+  | BUserMask cid vals op fl => write_user_mask cid vals op fl
+  | BSold pad kind version b => write_sold t pad kind version b
+  | BPlaced pad x => write_placed enc t pad x
+  | BTypeTool pad x => write_typetool t pad x
+  | BPixel pad l => write_pixel_sources pad l
+  | BMeta l => write_msettings t l
+  | BAnno major minor l => write_annotations enc major minor l
+  end.
+Definition blk6_reread (units : list Z) (t : terms) (a : blk6) (s : stream) : res blk6 :=
+  match a with
+  | BUserMask _ _ _ _ => do x <- read_user_mask s; let '(cid, vals, op, fl) := x in Ok (BUserMask cid vals op fl)
+  | BSold pad _ _ _ => do x <- read_sold units t s; let '(kind, version, b, _) := x in Ok (BSold pad kind version b)
+  | BPlaced pad _ => do x <- read_placed dec units t s; Ok (BPlaced pad (fst x))
+  | BTypeTool pad _ => do x <- read_typetool units t s; Ok (BTypeTool pad (fst x))
+  | BPixel pad _ => do l <- read_pixel_sources (S (length s)) s; Ok (BPixel pad l)
+  | BMeta _ => do x <- read_msettings units t s; Ok (BMeta (fst x))
+  | BAnno _ _ _ => do x <- read_annotations dec s; let '(major, minor, l) := x in Ok (BAnno major minor l)
+  end.
+Definition blk6_wf (units : list Z) (a : blk6) : bool :=
+  match a with
+  | BUserMask _ _ _ _ => true
+  | BSold _ kind version b => wf_sold units kind version b
+  | BPlaced _ x => wf_placed enc dec units x
+  | BTypeTool _ x => wf_typetool units x
+  | BPixel _ _ => true
+  | BMeta l => forallb (wf_msetting units) l
+  | BAnno _ _ l => forallb (wf_annotation enc dec) l
+  end.
+Definition blk6_outcome (units : list Z) (t : terms) (a : blk6) : list Z :=
+  match blk6_write t a with
+  | Err e => [err_code e]
+  | Ok (b, n) =>
+      [0; n; dig b] ++
+      match blk6_reread units t a b with
+      | Err e => [err_code e]
+      | Ok a' => [0; dig (c_blk6 a'); if list_eqb (c_blk6 a') (c_blk6 a) then 1 else 0]
+      end ++ [if blk6_wf units a then 1 else 0]
+  end.
